@@ -278,3 +278,11 @@ def py_spec_dep(w, b, defs, vals):
     if len(win) == 1:
         return ["run", win[0]["id"]]
     return ["ambig"]
+
+
+def kf01_shape(w, b, defs, vals, impl):
+    """KF-01's deviation shape for value-dependent programs (see resolve_common.kf01_shape_generic)"""
+    from .c10 import py_isinstance
+    from .resolve_common import kf01_shape_generic
+    hold = [d for d in defs if len(d["pos"]) == len(vals) and all(py_isinstance(v, b.ty(t)) is True for v, t in zip(vals, d["pos"]))]
+    return kf01_shape_generic(hold, impl, lambda ta, tb: doc_le(w, ta, tb))
